@@ -10,3 +10,4 @@ import LA.Props.C19
 import LA.Props.C09
 import LA.Props.C09Filters
 import LA.Props.C11
+import LA.Props.C03
